@@ -700,6 +700,59 @@ def judge(ctx, allcases):
     finish_tally(ctx, t)
 
 
+# ------------------------------------------------------------------ DimEq.tla: the equality tests shape-based conditions rely on
+def dimeq_stage(ctx):
+    """spec/DimEq.tla: literal / named / unnamed dims; the three equality tests of the code (rewriter._ir_utils.same_dim, same_shape,
+    _constant_folding._same_shape) transcribed and checked against 'equal under every binding'; every case replayed into the real
+    functions: a real answer 'same' on a pair that is not always equal is a violation (a shape-based simplification built on it is
+    wrong for some binding), any other disagreement with the transcription a SPEC-MISMATCH."""
+    import json
+
+    from onnxscript import ir
+    from onnxscript.optimizer import _constant_folding as cf
+    from onnxscript.rewriter import _ir_utils
+
+    res = core.run_tlc("DimEq", "DimEq_design.cfg", workers=1, timeout=600)
+    ctx.tlc(res, "DimEq_design.cfg")
+    if not res.ok:
+        raise core.MachineryError(f"TLC reports {res.violated} on DimEq_design.cfg:\n{res.out[-1500:]}")
+    cases = [json.loads(pr[1]) for pr in res.printed if pr and pr[0] == "CASE"]
+    for cfg, what in (("DimEq_canfail.cfg", "the naive == reading is not refuted"), ("DimEq_vacuity.cfg", "no pair is ever judged the same")):
+        r = core.run_tlc("DimEq", cfg, workers=1, timeout=600)
+        if r.ok:
+            raise core.MachineryError(f"DimEq {cfg}: {what} (vacuous)")
+    if len(cases) < 500:
+        raise core.MachineryError(f"DimEq: only {len(cases)} cases")
+
+    def dim(t):
+        return ir.SymbolicDim(None) if t == "?" else ir.SymbolicDim(t) if not t.lstrip("-").isdigit() else int(t)
+
+    def shape_dim(t):
+        return None if t == "?" else t if not t.lstrip("-").isdigit() else int(t)
+
+    mism = 0
+    for c in cases:
+        ctx.add("evaluations")
+        ctx.add("dimeq_cases")
+        if c["kind"] == "dim":
+            got = {"same_dim": bool(_ir_utils.same_dim(dim(c["a"][0]), dim(c["b"][0])))}
+        else:
+            s1, s2 = ir.Shape([shape_dim(t) for t in c["a"]]), ir.Shape([shape_dim(t) for t in c["b"]])
+            got = {"same_shape": bool(_ir_utils.same_shape(s1, s2)), "folder_same_shape": bool(cf._same_shape(s1, s2))}
+        for k, v in got.items():
+            if v and not c["always_equal"]:
+                fn = {"same_dim": "rewriter._ir_utils.same_dim", "same_shape": "rewriter._ir_utils.same_shape",
+                      "folder_same_shape": "optimizer._constant_folding._same_shape"}[k]
+                ctx.report({"kind": "dimeq", "case": c, "function": fn},
+                           f"{fn}({c['a']}, {c['b']}) answers True ('?' = unnamed dim) although the two are not equal under every run-time binding: "
+                           f"a simplification conditioned on it (ScatterND removal, Slice collapse, Reshape/Expand elimination) is wrong for some input shape")
+            elif v != c[k]:
+                mism += 1
+                if mism <= 5:
+                    print(f"SPEC-MISMATCH C09 DimEq: {k}({c['a']}, {c['b']}): model {c[k]} real {v}", flush=True)
+    ctx.set("dimeq_model_impl_mismatches", mism)
+
+
 def finish_tally(ctx, t):
     for _, line in sorted(t.lines)[:20]:
         print(line)
@@ -707,6 +760,7 @@ def finish_tally(ctx, t):
         ctx.report(blob, what, finding=finding)
     for _, smp in sorted(t.samples, key=lambda x: x[0])[:6]:
         ctx.sample(smp)
+    dimeq_stage(ctx)
     # hand-built idioms with symbolic dims that SymShape.tla's menus do not derive (ScatterND over a Range of a sliced
     # Shape, Reshape with a run-time target whose output is annotated with a static 0 dim): one optimize(), several
     # concrete bindings per model (shared with C03/C04: optgen.family_models, names sym_*)
